@@ -468,6 +468,11 @@ func (p *cparser) primary() CExpr {
 		case "forall", "exists":
 			p.pos--
 			return p.quant()
+		case "map":
+			if p.isOp("[") { // a map type in expression position (typeOf(x) == map[K]V)
+				p.pos--
+				return &CTypeExpr{p.typ()}
+			}
 		}
 		return &CIdent{t.text}
 	case "op":
@@ -479,6 +484,9 @@ func (p *cparser) primary() CExpr {
 		if t.text == "[" { // []T(x) conversion
 			p.pos--
 			ty := p.typ()
+			if !p.isOp("(") { // a slice / array type in expression position (typeOf(x) == []T)
+				return &CTypeExpr{ty}
+			}
 			p.expectOp("(")
 			x := p.expr()
 			p.expectOp(")")
